@@ -561,7 +561,7 @@ class BitArray(Bits):
             finalbit = end_v
         else:
             # Just try one (set of) byteswap(s).
-            finalbit = start_v + totalbitsize
+            finalbit = min(start_v + totalbitsize, end_v)
         for patternend in range(start_v + totalbitsize, finalbit + 1, totalbitsize):
             bytestart = patternend - totalbitsize
             for bytesize in bytesizes:
